@@ -31,10 +31,16 @@ SQFS_COMPRESSOR compressor_get_default(void)
 
 		ret = sqfs_compressor_create(&cfg, &temp);
 
-		if (ret == 0) {
+		if (ret == 0)
 			sqfs_drop(temp);
+
+		/*
+		  Only "not compiled in" disqualifies a compressor. Any other
+		  failure of the probe (e.g. out of memory) must not silently
+		  make a different compressor the default.
+		 */
+		if (ret != SQFS_ERROR_UNSUPPORTED)
 			return cmp_ids[i];
-		}
 	}
 
 #ifdef WITH_LZO
